@@ -20,6 +20,10 @@ with signal/constant/component declarations, processes, blocks, instantiations, 
 * `var-read-before-write`  in every process, a VARIABLE of that process is assigned on every path before it is read;
 * `end-name`           the name repeated after END is the unit's name.
 
+`declaredNames` lists every declared identifier with the kind of position it stands at; the driver uses it to verify that every
+user-given name of the design (as the harness reads it back from the circuit that is exported) leaves its trace at the expected
+kind of position (`name-lost` otherwise), so that the quantification over names is not vacuous.
+
 Not checked: full VHDL type/overload resolution (a user name that hides a library type or function is not detected — the
 generator avoids those names), operand-width agreement *inside* expressions, attribute specifications, generics, external
 (vendor) components, configuration/`for … generate`/records/arrays (never emitted for the generated designs).
@@ -1073,6 +1077,29 @@ structure FileReport where
   blocks : Nat := 0
   components : Nat := 0
   assignments : Nat := 0
+  /-- every declared identifier of the file with the kind of position it stands at:
+      entity package port signal variable constant component inst proc block -/
+  declared : List (String × String) := []
+  parsed : Bool := false
+
+partial def declaredConcs (cs : List Conc) : List (String × String) :=
+  cs.flatMap fun c =>
+    match c with
+    | .proc p => ("proc", p.label) :: p.decls.map (fun d => (d.kind, d.name))
+    | .inst l _ _ _ _ => [("inst", l)]
+    | .block l _ ds comps body => ("block", l) :: ds.map (fun d => (d.kind, d.name)) ++
+        comps.flatMap (fun i => i.ports.map fun d => ("port", d.name)) ++ declaredConcs body
+    | .assign _ => []
+
+/-- all declared identifiers of the design units, with their position kind -/
+def declaredNames (us : List DUnit) : List (String × String) :=
+  us.flatMap fun u =>
+    match u with
+    | .entity i => ("entity", i.name) :: i.ports.map fun d => ("port", d.name)
+    | .arch _ _ _ ds comps body => ds.map (fun d => (d.kind, d.name)) ++
+        comps.flatMap (fun i => i.ports.map fun d => ("port", d.name)) ++ declaredConcs body
+    | .package n _ _ cs => ("package", n) :: cs.map fun d => ("constant", d.name)
+    | _ => []
 
 partial def countStmts : List Stmt → Nat
   | [] => 0
@@ -1103,6 +1130,7 @@ def checkFile (lines : Array String) : FileReport :=
       | .arch _ _ _ _ cs body => let (p, i, b, a) := countConcs body; (acc.1 + p, acc.2.1 + i, acc.2.2.1 + b, acc.2.2.2.1 + a, acc.2.2.2.2 + cs.length)
       | _ => acc) (0, 0, 0, 0, 0)
     { problems := lexProbs.toList ++ words ++ pprobs.toList ++ checkUnits us, tokens := toks.size, identifiers := nIds,
-      units := us.length, processes := p, instances := i, blocks := b, components := comps, assignments := a }
+      units := us.length, processes := p, instances := i, blocks := b, components := comps, assignments := a,
+      declared := declaredNames us, parsed := true }
 
 end Gatery.C13.Vhdl
